@@ -227,6 +227,11 @@ def mon_optimize(case, ev, check_optimality=True, time_limit=30., scaled_only=Fa
         ref = solve.solve_op(s, relax=soft, time_limit=time_limit)
         if ref['status'] == 'other':
             case.inconc('reference solver undecided on a problem reported as failed'); return
+        if ref['status'] == 'optimal' and ref.get('x') is not None:
+            # a violation needs a witness: the reference's point must itself pass the exact residual test (boolean = {0,1} within the bounds)
+            rr = solve.residuals(s, np.asarray(ref['x'], float))
+            if not (rr['bound'] <= solve.TOL_FEAS and rr['rows'] <= solve.TOL_FEAS and (soft or rr['int'] <= solve.TOL_INT)):
+                case.inconc('reference point fails the residual test'); return
         case.check('opt.failure_means_infeasible', ref['status'] == 'infeasible', **info, reported=res, reference=ref['status'],
                    ref_value=ref['value'])
         return
@@ -257,6 +262,14 @@ def mon_optimize(case, ev, check_optimality=True, time_limit=30., scaled_only=Fa
             case.check('opt.no_better_point', float(res.value) >= ref['value'] - tolv, **info, value=float(res.value), reference=ref['value'])
             case.check('opt.not_above_optimum', float(res.value) <= ref['value'] + tolv, **info, value=float(res.value), reference=ref['value'])
         elif ref['status'] == 'infeasible':
-            case.check('opt.success_means_feasible', False, **info, reference='infeasible')
+            # The returned point itself decides feasibility (clauses above, exact residuals). If it passes them it is a witness that refutes the
+            # reference's verdict (scipy's HiGHS was caught declaring feasible MILPs infeasible with either presolve setting): optimality of this
+            # return is then undecided; only a point that fails the residual clauses AND an infeasible reference agree.
+            feasible_witness = (r['bound'] <= solve.TOL_FEAS and r['rows'] <= solve.TOL_FEAS and (not is_mip or r['int'] <= solve.TOL_INT))
+            if feasible_witness:
+                case.event('reference_infeasibility_refuted_by_returned_point')
+                case.stats['reference_wrong'] += 1
+            else:
+                case.check('opt.success_means_feasible', False, **info, reference='infeasible')
         else:
             case.inconc('reference solver: ' + ref['status'])
